@@ -277,17 +277,51 @@ func runC01(r *mc.Run) {
 				}
 			}
 		}
-		doneR := r.Parallel(len(revs)*2, func(k int) {
+		// ... and in the other byte orders a value of that size is met in: GUID mixed-endian storage (first group of
+		// four and the two groups of two reversed), every 2 / 4 / 8 bytes reversed, the two halves exchanged
+		modes := []string{"reverse", "guid-mixed-endian", "each-2-reversed", "each-4-reversed", "each-8-reversed", "halves-exchanged"}
+		doneR := r.Parallel(len(revs)*2*len(modes), func(k0 int) {
+			mode := modes[k0%len(modes)]
+			k := k0 / len(modes)
 			t, l := revs[k/2], []int{world.L0, world.L2}[k%2]
 			id := fmt.Sprintf("reverse/%s/%s/%s", b.name, lvlName[l], t.f.Name)
+			if mode != "reverse" {
+				id = fmt.Sprintf("reencode/%s/%s/%s/%s", mode, b.name, lvlName[l], t.f.Name)
+			}
 			if !r.Want(id) {
 				return
 			}
 			m := append([]byte(nil), b.raw...)
 			fld := m[t.base+t.f.Off : t.base+t.f.Off+t.f.Len]
 			orig := append([]byte(nil), fld...)
-			for i, j := 0, len(fld)-1; i < j; i, j = i+1, j-1 {
-				fld[i], fld[j] = fld[j], fld[i]
+			rev := func(x []byte) {
+				for i, j := 0, len(x)-1; i < j; i, j = i+1, j-1 {
+					x[i], x[j] = x[j], x[i]
+				}
+			}
+			group := func(n int) {
+				for o := 0; o+n <= len(fld); o += n {
+					rev(fld[o : o+n])
+				}
+			}
+			switch mode {
+			case "reverse":
+				rev(fld)
+			case "guid-mixed-endian":
+				if len(fld) >= 8 {
+					rev(fld[0:4])
+					rev(fld[4:6])
+					rev(fld[6:8])
+				}
+			case "each-2-reversed":
+				group(2)
+			case "each-4-reversed":
+				group(4)
+			case "each-8-reversed":
+				group(8)
+			case "halves-exchanged":
+				h := len(fld) / 2
+				copy(fld, append(append([]byte{}, orig[len(fld)-h:]...), orig[:len(fld)-h]...))
 			}
 			if bytes.Equal(orig, fld) {
 				r.Eval(id, false, "reverse:palindrome")
@@ -297,7 +331,7 @@ func runC01(r *mc.Run) {
 			out := c01Judge(r, id, "reverse:"+t.region+":", m, err, b, t.region)
 			r.Eval(id, true, "reverse:"+t.region+":"+out)
 		})
-		r.SectionDone(mc.Section{Name: "field-byte-reversals/" + b.name, Evaluations: int64(doneR), Exhaustive: doneR == len(revs)*2})
+		r.SectionDone(mc.Section{Name: "field-byte-reversals/" + b.name, Evaluations: int64(doneR), Exhaustive: doneR == len(revs)*2*len(modes)})
 		done := r.Parallel(len(trs)*2, func(k int) {
 			t, l := trs[k/2], []int{world.L0, world.L2}[k%2]
 			id := fmt.Sprintf("swap/%s/%s/%s<->%s", b.name, lvlName[l], t.f.Name, t.g.Name)
